@@ -729,7 +729,55 @@ def rule_square_arith(ctx):
               bad_what="Square + Direction steps by %s (expected %s)" % ({k: v for k, v in table.items() if v != G.DIRS[k]}, {k: G.DIRS[k] for k, v in table.items() if v != G.DIRS[k]}))
 
 
-RULES = [("square-arith", rule_square_arith), ("ply-builder", rule_ply_builder), ("filter", rule_filter), ("probe", rule_probe), ("check-mirror", rule_check_mirror), ("castle-pre", rule_castle_pre), ("castle-masks", rule_castle_masks),
+def rule_leaf_accessors(ctx):
+    """The small accessors every table rule names instead of reading: `Kind::get_color` returns the colour the kind carries,
+    `Square::get_mask` is the one bit of that square, `Bitboard::count_ones` is the population count of the board."""
+    from . import c06, cases
+    ix = ctx.ix
+    g = ctx.body("board::piece::Kind::get_color")
+    bad = []
+    for k in tables.KINDS:
+        for c in tables.COLOURS:
+            run = cases.run(ix, g, {g.local_name(1): cases.enum_val(ix, "board::piece::Kind", k, [cases.enum_val(ix, "board::piece::Color", c)])})
+            rets = [p for p in run.paths if p.end == "return"]
+            r = mir.strip_copies(rets[0].ret) if len(rets) == 1 and not run.overflow else None
+            if not (r is not None and r[0] == "agg" and str(r[1]).endswith("piece::Color") and r[2] == c):
+                bad.append((k, c, expr_str(r)[:30] if r else None))
+    ctx.check(not bad, "Kind::get_color:payload", "Kind::get_color(K(c)) = c for the 12 pieces", g.where(0), bad_what="Kind::get_color is wrong for %s" % bad[:4])
+    m = ctx.body("board::square::Square::get_mask")
+    r = ctx.sym(m).local(0)
+    a1 = m.local_name(1)
+    wrong = []
+    und = None
+    for rk in range(8):
+        for fl in range(8):
+            try:
+                v = c06.fold_tree(ix, r, {"%s.rank" % a1: rk, "%s.file" % a1: fl, a1: {"rank": rk, "file": fl}})
+            except c06.Undef as e:
+                und = str(e)
+                break
+            if v != 1 << (8 * rk + fl) and len(wrong) < 3:
+                wrong.append(((rk, fl), hex(v) if isinstance(v, int) else v))
+        if und:
+            break
+    ctx.check(und is None and not wrong, "Square::get_mask:one-bit", "Square::get_mask() = 1 << (8 * rank + file) for the 64 squares", m.where(0),
+              bad_what=("Square::get_mask cannot be folded (%s): cannot decide" % und) if und else "Square::get_mask is wrong for %s" % wrong)
+    cb = ctx.body("board::bitboard::Bitboard::count_ones")
+    e = mir.strip_copies(ctx.sym(cb).local(0))
+    hops = 0
+    while e[0] == "call" and e[1] in ix.bodies and hops < 3:
+        hb = ix.bodies[e[1]]
+        ctx.functions.add(e[1])
+        inner = mir.strip_copies(mir.Sym(hb, ix).local(0))
+        if len(hb.blocks) > 3:
+            break
+        e = inner
+        hops += 1
+    ok = e[0] == "call" and e[1].endswith("<impl u64>::count_ones") and len(e[2]) == 1 and mir.strip_copies(e[2][0])[0] == "field" and mir.strip_copies(e[2][0])[-1] == "0"
+    ctx.check(ok, "Bitboard::count_ones:popcount", "Bitboard::count_ones() is u64::count_ones of the board's word", cb.where(0), bad_what="Bitboard::count_ones returns `%s`" % expr_str(e)[:80])
+
+
+RULES = [("leaf-accessors", rule_leaf_accessors), ("square-arith", rule_square_arith), ("ply-builder", rule_ply_builder), ("filter", rule_filter), ("probe", rule_probe), ("check-mirror", rule_check_mirror), ("castle-pre", rule_castle_pre), ("castle-masks", rule_castle_masks),
          ("castle-moves", rule_castle_moves), ("pawn-table", rule_pawn_table), ("dispatch", rule_dispatch), ("capture-src", rule_capture_src), ("square-loops", rule_square_loops)]
 # what the clauses above take for granted, decided here as well: the attack tables the generators read (C06), make/unmake
 # leaving the position intact around the legality probe (C02), and the bookkeeping that later move generation depends on
